@@ -16,6 +16,7 @@ ASSUMPTIONS = ["stored rows are read through the documented public `buffer` mapp
 TIERS = {"quick": {"runs": 80}, "thorough": {"runs": 1500}}
 REQUIRED = ["datasets_checked", "dataset_with_several_episodes", "parallel_environments", "stored_rows_checked", "stored_first_transition_after_reset", "acting_on_current_obs", "capacity_smaller_than_run", "one_step_episode"]
 REQUIRED_QUICK = REQUIRED
+CHUNK = 24  # TrainSim plans per fresh worker process
 SHRINK_LISTS = [["env", "script"]]
 SHRINK_INTS = []
 CLAUSES = ["C01.a", "C01.b", "C01.c", "C01.d"]
